@@ -15,8 +15,8 @@ use super::*;
 
 /// largest heap explored
 pub const N: usize = 4;
-/// arena slots: N possible members + 1 spare node
-pub const M: usize = N + 1;
+/// arena slots (the symbolic-key harnesses use at most N + 1 of them; the wide, concrete-key ones up to 8)
+pub const M: usize = 8;
 
 pub struct Arena {
     pub nodes: [HeapNode<u8>; M],
@@ -495,6 +495,131 @@ fn remove_k4_012_j2() {
 #[kani::proof]
 fn remove_k4_012_j3() {
     check_remove(4, &[0, 0, 1, 2], 3);
+}
+
+// ---------------- wide shapes with CONCRETE keys (loops of merge_children beyond 2 iterations) ----------------
+/// `merge_children` pairs the children right-to-left and folds the pairs into an accumulator: its steady state is only
+/// reached when a node with >= 5 children is removed, i.e. with >= 6 nodes -- beyond what is tractable with symbolic
+/// keys.  These harnesses remove the node that owns c = 5 / 6 children (as the root, or below the root) with concrete
+/// key patterns (ascending, descending, all equal, zig-zag, zag-zig relative to insertion order); fully concrete, so
+/// CBMC acts as an interpreter with all pointer checks on.  Bounded AND sampled in the keys: stated in the evidence.
+fn check_wide(k: usize, parents: &[usize], j: usize, keys: &[u8]) {
+    let mut a = arena(k + 1);
+    let mut i = 0;
+    while i < k {
+        a.nodes[i].data = keys[i];
+        i += 1;
+    }
+    let mut h = unsafe { build(&mut a, k, parents) };
+    assert!(wf(&a, &h));
+    let m0 = members(&a, &h);
+    assert!(count(&a, &m0) == k);
+    let node: *mut HeapNode<u8> = unsafe { a.nodes.as_mut_ptr().add(j) };
+    unsafe {
+        h.remove(&mut *node);
+    }
+    assert!(wf(&a, &h));
+    assert!(unlinked(&a.nodes[j]));
+    let m1 = members(&a, &h);
+    let mut i = 0;
+    while i < a.m {
+        assert!(m1[i] == (m0[i] && i != j)); // nobody else falls out of the heap
+        i += 1;
+    }
+    assert!(root_is_min(&a, &h));
+    unsafe {
+        h.insert(&mut *node);
+    }
+    assert!(wf(&a, &h));
+    assert!(count(&a, &members(&a, &h)) == k);
+    assert!(root_is_min(&a, &h));
+    // drain by repeatedly removing the minimum: every member comes out exactly once, in non-decreasing key order
+    let mut last = 0u8;
+    let mut n = 0;
+    while n < k {
+        let r = h.peek_min();
+        assert!(r.is_some());
+        let ri = idx(&a, r);
+        assert!(ri < a.m && a.nodes[ri].data >= last);
+        last = a.nodes[ri].data;
+        let rp: *mut HeapNode<u8> = unsafe { a.nodes.as_mut_ptr().add(ri) };
+        unsafe {
+            h.remove(&mut *rp);
+        }
+        n += 1;
+    }
+    assert!(h.peek_min().is_none());
+}
+
+#[kani::proof]
+fn wide_root_c5_asc() {
+    check_wide(6, &[0, 0, 0, 0, 0, 0], 0, &[1, 10, 11, 12, 13, 14]);
+}
+#[kani::proof]
+fn wide_inner_c5_asc() {
+    check_wide(7, &[0, 0, 1, 1, 1, 1, 1], 1, &[1, 2, 10, 11, 12, 13, 14]);
+}
+#[kani::proof]
+fn wide_root_c5_desc() {
+    check_wide(6, &[0, 0, 0, 0, 0, 0], 0, &[1, 15, 14, 13, 12, 11]);
+}
+// TIER: thorough
+#[kani::proof]
+fn wide_inner_c5_desc() {
+    check_wide(7, &[0, 0, 1, 1, 1, 1, 1], 1, &[1, 2, 15, 14, 13, 12, 11]);
+}
+#[kani::proof]
+fn wide_root_c5_eq() {
+    check_wide(6, &[0, 0, 0, 0, 0, 0], 0, &[1, 10, 10, 10, 10, 10]);
+}
+#[kani::proof]
+fn wide_inner_c5_eq() {
+    check_wide(7, &[0, 0, 1, 1, 1, 1, 1], 1, &[1, 2, 10, 10, 10, 10, 10]);
+}
+// TIER: thorough
+#[kani::proof]
+fn wide_root_c5_zig() {
+    check_wide(6, &[0, 0, 0, 0, 0, 0], 0, &[1, 10, 16, 12, 18, 14]);
+}
+// TIER: thorough
+#[kani::proof]
+fn wide_inner_c5_zig() {
+    check_wide(7, &[0, 0, 1, 1, 1, 1, 1], 1, &[1, 2, 10, 16, 12, 18, 14]);
+}
+// TIER: thorough
+#[kani::proof]
+fn wide_root_c5_zag() {
+    check_wide(6, &[0, 0, 0, 0, 0, 0], 0, &[1, 15, 11, 17, 13, 19]);
+}
+// TIER: thorough
+#[kani::proof]
+fn wide_inner_c5_zag() {
+    check_wide(7, &[0, 0, 1, 1, 1, 1, 1], 1, &[1, 2, 15, 11, 17, 13, 19]);
+}
+// TIER: thorough
+#[kani::proof]
+fn wide_root_c6_asc() {
+    check_wide(7, &[0, 0, 0, 0, 0, 0, 0], 0, &[1, 10, 11, 12, 13, 14, 15]);
+}
+// TIER: thorough
+#[kani::proof]
+fn wide_root_c6_desc() {
+    check_wide(7, &[0, 0, 0, 0, 0, 0, 0], 0, &[1, 16, 15, 14, 13, 12, 11]);
+}
+// TIER: thorough
+#[kani::proof]
+fn wide_root_c6_eq() {
+    check_wide(7, &[0, 0, 0, 0, 0, 0, 0], 0, &[1, 10, 10, 10, 10, 10, 10]);
+}
+// TIER: thorough
+#[kani::proof]
+fn wide_root_c6_zig() {
+    check_wide(7, &[0, 0, 0, 0, 0, 0, 0], 0, &[1, 10, 16, 12, 18, 14, 20]);
+}
+// TIER: thorough
+#[kani::proof]
+fn wide_root_c6_zag() {
+    check_wide(7, &[0, 0, 0, 0, 0, 0, 0], 0, &[1, 15, 11, 17, 13, 19, 15]);
 }
 
 // ---------------- generic helpers for the harnesses of other modules (timer) ----------------
